@@ -48,6 +48,9 @@ ASSUMPTIONS = [
 ]
 
 
+NONDETERMINISTIC_SUTS = {"rng_user"}
+
+
 def floors(tier):
     k = 1 if tier == "quick" else 6
     return {
@@ -117,6 +120,36 @@ def _pair_classes(stmts, k, a):
     return cl
 
 
+def _align(stmts, others):
+    """For every snapshot statement the index of its counterpart in ``others`` = [(bound name | None, rhs key)] or None.
+    A bound statement corresponds to the statement binding the same name (names are unique in a test case) or, if that name
+    is bound nowhere, to the next not yet used *unbound* statement with the same right-hand side (the binding was removed)."""
+    from vlib import genfiles
+
+    by_name = {b: j for j, (b, _) in enumerate(others) if b is not None}
+    used, out, pos = set(), [], 0
+    for s in stmts:
+        key = genfiles.code_rhs_key(s["code"])
+        j = by_name.get(s["bound"]) if s["bound"] else None
+        if j is None:
+            j = next((i for i in range(pos, len(others)) if i not in used and others[i][0] is None and others[i][1] == key), None)
+        elif others[j][1] != key:
+            j = None
+        if j is not None:
+            used.add(j)
+            pos = max(pos, j + 1)
+        out.append(j)
+    return out
+
+
+def _bound_of(node):
+    from vlib import genfiles
+
+    if isinstance(node, ast.Assign) and len(node.targets) == 1 and isinstance(node.targets[0], ast.Name) and genfiles.VAR_RE.match(node.targets[0].id):
+        return node.targets[0].id
+    return None
+
+
 def _trivial_literal(code):
     """`var_N = <literal / name>`: an unused primitive whose removal (with its tautological assertion) is the declared job of the
     unused-statement pass."""
@@ -134,7 +167,8 @@ def _trivial_literal(code):
 
 
 def _ruv_index(events):
-    """(tid, rhs key of the statement, unparsed assertion text | exc name) -> caller, for every pair remove_unused_variables lost."""
+    """(tid, unparsed statement incl. its binding, unparsed assertion text | exc name) -> caller, for every pair
+    remove_unused_variables lost (variable names are unique inside a test case, so the statement text identifies the statement)."""
     from vlib import genfiles
 
     idx = {}
@@ -142,7 +176,7 @@ def _ruv_index(events):
         if e.get("ev") != "ruv":
             continue
         for d in e["dropped"]:
-            key = genfiles.code_rhs_key(d["code"])
+            key = genfiles.unparse_code(d["code"])
             for lost in d["lost"]:
                 text = genfiles.unparse_code(lost["code"]) if lost.get("code") else f"<exc:{lost.get('exc')}>"
                 idx.setdefault((e["tid"], key, text), e["caller"])
@@ -222,7 +256,7 @@ def check_run(ctx, r):
                 key = genfiles.code_rhs_key(s["code"])
                 for a in s["asserts"]:
                     text = _assert_text(a)
-                    caller = ruv.get((t["tid"], key, text))
+                    caller = ruv.get((t["tid"], genfiles.unparse_code(s["code"]), text))
                     ctx.ok(cls=["step:post-processing", "pair:test-case-removed"] + _pair_classes(t["stmts"], k, a))
                     if caller is not None and a["kind"] != "ExceptionAssertion" and _trivial_literal(s["code"]):
                         ctx.anomaly("unused-literal-removed-with-its-tautological-assertion")
@@ -231,16 +265,10 @@ def check_run(ctx, r):
                                     f"{r['tag']}: `{a['code']}` on `{s['code']}` was stripped by remove_unused_variables ({caller}); the test case was then removed",
                                     {**case_info, "tid": t["tid"], "statement": s["code"], "assertion": a, "step": caller, "then": "test case removed"})
             continue
-        xkeys = [genfiles.code_rhs_key(s["code"]) for s in tx["stmts"]]
-        pos = 0
+        align = _align(t["stmts"], [(s["bound"], genfiles.code_rhs_key(s["code"])) for s in tx["stmts"]])
         for k, s in enumerate(t["stmts"]):
             key = genfiles.code_rhs_key(s["code"])
-            try:
-                j = xkeys.index(key, pos)
-            except ValueError:
-                j = None
-            if j is not None:
-                pos = j + 1
+            j = align[k]
             if not s["asserts"]:
                 continue
             have = {_assert_text(a) for a in tx["stmts"][j]["asserts"]} if j is not None else set()
@@ -249,7 +277,7 @@ def check_run(ctx, r):
                 if text is None:
                     continue
                 cl = ["step:post-processing"] + _pair_classes(t["stmts"], k, a)
-                caller = ruv.get((t["tid"], key, text))
+                caller = ruv.get((t["tid"], genfiles.unparse_code(s["code"]), text))
                 if j is None:
                     ctx.ok(cls=cl + ["pair:statement-removed"])
                     if caller is not None and a["kind"] != "ExceptionAssertion" and _trivial_literal(s["code"]):
@@ -296,23 +324,17 @@ def check_run(ctx, r):
         xfail = genfiles.is_xfail_decorated(fn)
         if len(stmt_groups) != len(t["stmts"]):
             ctx.anomaly("exported-function-statement-count-differs")
-        gkeys = [genfiles.rhs_key(g[1]) for g in stmt_groups]
-        pos = 0
+        align = _align(t["stmts"], [(_bound_of(g[1]), genfiles.rhs_key(g[1])) for g in stmt_groups])
         for k, s in enumerate(t["stmts"]):
             key = genfiles.code_rhs_key(s["code"])
-            try:
-                j = gkeys.index(key, pos)
-            except ValueError:
-                j = None
-            if j is not None:
-                pos = j + 1
+            j = align[k]
             for a in s["asserts"]:
                 text = _assert_text(a)
                 if text is None:
                     continue
                 cl = ["step:export"] + _pair_classes(t["stmts"], k, a)
                 ctx.ok(cls=cl, distinct=f"x|{c['sut']}|{c['seed']}|{c['algo']}|{t['tid']}|{key}|{text}")
-                caller = ruv.get((t["tid"], key, text))
+                caller = ruv.get((t["tid"], genfiles.unparse_code(s["code"]), text))
                 if caller != "export":
                     caller = None
                 if j is None:
@@ -325,6 +347,9 @@ def check_run(ctx, r):
                     if g[2] is not None or xfail:
                         if g[2] is not None and g[2] != a["exc"]:
                             ctx.anomaly("pytest.raises-names-a-different-exception-than-the-assertion")
+                        continue
+                    if c["sut"] in NONDETERMINISTIC_SUTS:
+                        ctx.anomaly("random-using-sut:exception-structure-not-reproduced-at-export")
                         continue
                     ctx.witness("lost:export:exception-assertion:no-raises-no-xfail",
                                 f"{r['tag']}: `{s['code']}` carries ExceptionAssertion({a['exc']}) but test_{t['pos']} neither wraps it in pytest.raises nor is marked xfail",
